@@ -437,6 +437,14 @@ def run_shard(desc, ctx):
                 ctx.count("commands_covered")
                 for t in TEMPLATES:
                     texts.append(t.replace("{c}", c))
+            # a command and a longer command that starts with it, in one text, both orders
+            allc = sorted(c for c in table() if c[1:].isalpha())
+            pairs = [(a, b) for a in cmds if a[1:].isalpha() for b in allc if b != a and b.startswith(a)]
+            for a, b in pairs:
+                ctx.count("prefix_pairs_covered")
+                texts.append(f"{a} x {b} y")
+                texts.append(f"{b} x {a} y {b}")
+                texts.append(f"{a} {a}z {b}")
             for i in range(0, len(texts), 1000):
                 check_body_batch(ctx, texts[i:i + 1000], True, "command x template")
         elif desc["kind"] == "specials":
